@@ -95,7 +95,7 @@ def run(repo: Repo, rep: Report):
     sem.check_simplify(repo, rep, {"structure": "R-SITE.simplify"})
 
 
-def _check_gate_raises(repo, rep):
+def _check_gate_raises(repo, rep, rule=None):
     """The gate is effective: unsupported content makes topicosvg raise; the tolerating option lets it complete."""
     from sa.rules import sem
     from sa.dom import El
@@ -120,7 +120,7 @@ def _check_gate_raises(repo, rep):
     for title, extra, kw, want_exc, want_tag in cases:
         outs, _ = sem.run_pipeline(repo, ndigits=3, passes=1, doc=doc(extra), **kw)
         for o in outs:
-            rid = "R-SITE.options" if kw else "R-ORDER.gate"
+            rid = rule or ("R-SITE.options" if kw else "R-ORDER.gate")
             if want_exc:
                 if o.raised != want_exc:
                     rep.fail(rid, F, title, f"{title}: conversion {'raises ' + o.raised if o.raised else 'returns normally'}; the result cannot be a picosvg, {want_exc} is expected", svg, fn)
